@@ -62,6 +62,10 @@ pub struct Cli {
     pub sids: Vec<u32>,
     pub wire: Option<WireLog>,
     pub clock_mode: u64,
+    /// Some(x): the next input is delivered in two calls (cut position derived from x); the event of the first
+    /// call (which completes no message) is queued in `pending`
+    pub frag: Option<u64>,
+    pub pending: Vec<Value>,
 }
 
 pub fn packets_of(rs: &[ClientSessionResult]) -> Vec<&rml_rtmp::chunk_io::Packet> {
@@ -91,7 +95,7 @@ impl Cli {
         let (s, rs) = ClientSession::new(cfg).expect("client session");
         let mut peer = Peer::new();
         let results = results_json(&mut peer, &rs);
-        let mut c = Cli { s, peer, clock, txns: vec![], sids: vec![], wire, clock_mode: 0 };
+        let mut c = Cli { s, peer, clock, txns: vec![], sids: vec![], wire, clock_mode: 0, frag: None, pending: vec![] };
         c.wire_record(&rs);
         let ev = json!({"ev":"New","cfg":cfgj,"res":"ok","results":results,"probe":probe_json(&c.s),"clk":w(clock as u32)});
         (c, ev)
@@ -108,6 +112,22 @@ impl Cli {
         }
     }
     pub fn input(&mut self, desc: Value, bytes: &[u8]) -> Value {
+        if let Some(x) = self.frag.take() {
+            if bytes.len() >= 2 {
+                let cut = 1 + (x % (bytes.len() as u64 - 1)) as usize;
+                let first = self.input_whole(json!({"m":"frag"}), &bytes[..cut]);
+                let ok = first["res"] == "ok";
+                self.pending.push(first);
+                if !ok {
+                    return self.input_whole(json!({"m":"frag"}), &[]);
+                }
+                return self.input_whole(desc, &bytes[cut..]);
+            }
+        }
+        self.input_whole(desc, bytes)
+    }
+
+    pub fn input_whole(&mut self, desc: Value, bytes: &[u8]) -> Value {
         if self.clock_mode == 0 { self.clock += 3; }
         rml_rtmp::verif::set_clock(Some(self.clock));
         let _ = rml_rtmp::verif::tap_drain();
@@ -361,12 +381,22 @@ pub fn generate(kind: &str, tier: &str, seed: u64, shard: u64, nshards: u64, pat
         let mut prev_probe = probe_json(&c.s);
         for _ in 0..n {
             c.tick(&mut rng);
+            // every fourth input arrives in two calls, the first of which completes no message
+            c.frag = if rng.chance(1, 4) { Some(rng.next()) } else { None };
             let e = random_step(&mut rng, &mut c, &padlens);
+            c.frag = None;
+            let mut frag_failed = false;
+            for p in c.pending.drain(..) {
+                frag_failed |= p["res"] != "ok";
+                prev_probe = p["probe"].clone();
+                t.emit(&p);
+                steps += 1;
+            }
             let dead = e["res"].as_str().map(|x| x.starts_with("panic") || (e["ev"] == "In" && x.starts_with("err") && lost_ack(&prev_probe, &e))).unwrap_or(false);
             prev_probe = e["probe"].clone();
             t.emit(&e);
             steps += 1;
-            if dead {
+            if dead || frag_failed {
                 break;
             }
         }
